@@ -484,14 +484,16 @@ func ruleRegisterAfterSend(c *chk.Ctx) {
 			if !ok || !chk.LoadsField(mu.Map, c.M.CPending) {
 				return
 			}
-			okSend := false
-			for _, cd := range ir.CondsAt(mu.Block()) {
-				if x, eq, ok := ir.NilCompare(cd.V); ok && eq == cd.Truth {
-					if call, ok := x.(*ssa.Call); ok && call.Call.IsInvoke() && call.Call.Method.Name() == "Send" {
-						okSend = true
+			okSend := c.P.AllContexts(mu, nil, func(cs []ir.Cond) bool {
+				for _, cd := range cs {
+					if x, eq, ok := ir.NilCompare(cd.V); ok && eq == cd.Truth {
+						if call, ok := x.(*ssa.Call); ok && call.Call.IsInvoke() && call.Call.Method.Name() == "Send" {
+							return true
+						}
 					}
 				}
-			}
+				return false
+			})
 			c.Check(okSend, "TOKEN.register", f, "client registration after Send", mu.Pos(), "requests are registered only on the success edge of Send (a failed transmission leaves no entry behind)", "requests are registered although Send may have failed: the entry would never be fulfilled")
 		})
 	}
@@ -765,7 +767,7 @@ func ruleWatcherContextPairing(c *chk.Ctx) {
 						if ok3 && ok4 && re.Tuple == ce.Tuple && re.Index != ce.Index && re.Block() == ce.Block() {
 							// the appends are in the same block too
 							var ra, ca *ssa.BasicBlock
-							ir.Instrs(f, func(i3 ssa.Instruction) {
+							ir.Instrs(re.Parent(), func(i3 ssa.Instruction) {
 								if call, ok := i3.(*ssa.Call); ok {
 									if b, isB := call.Call.Value.(*ssa.Builtin); isB && b.Name() == "append" {
 										els, _ := c.P.ElementValues(call.Call.Args[1])
